@@ -15,7 +15,7 @@ def mom_tok(rng):
     return f"{rng.choice([-1, 1]) * rng.choice([0.25, 0.5, 1.5, 2.0, 3.75, 0.125, 12.0, rng.randint(1, 40) / 8]):g}"
 
 
-def gen_doc(rng, ptype=None, max_events=5, max_mult=4):
+def gen_doc(rng, ptype=None, max_events=5, max_mult=4, ultra=False):
     ptype = ptype or rng.choice(["hadron", "hadron", "parton"])
     sep = rng.choice(["\t", "\t", " "])
     nev = rng.randint(1, max_events)
@@ -27,7 +27,15 @@ def gen_doc(rng, ptype=None, max_events=5, max_mult=4):
             px, py, pz = mom_tok(rng), mom_tok(rng), mom_tok(rng)
             p2 = Fraction(px) ** 2 + Fraction(py) ** 2 + Fraction(pz) ** 2
             k = rng.random()
-            if k < 0.7:      # clearly massive
+            if ultra and k < 0.12:
+                # ultra-relativistic massive particle (E/m of 1e3 .. 1e4): E^2 - p^2 is tiny relative to E^2 but positive; dyadic
+                # values with few bits, so that the float arithmetic of the derived mass is exact
+                e = rng.choice([10, 11, 12, 12])
+                pz0 = 2 ** e
+                px, py = rng.choice(["0", "0.5", "-0.5"]), "0"
+                pz = str(rng.choice([-1, 1]) * pz0)
+                E = repr(float(pz0) + 2.0 ** (-e + rng.choice([0, -2])))
+            elif k < 0.7:      # clearly massive
                 mass = rng.choice([0.125, 0.5, 1.0, 0.938, 0.14])
                 E = f"{math.sqrt(float(p2) + mass * mass) * 1.0:.6g}"
                 if Fraction(E) ** 2 < p2 * Fraction(1000001, 1000000):
